@@ -211,8 +211,8 @@ def build_harness(release=False):
 
 def run_model(case_file, out_file):
     with open(out_file, "w") as f:
-        p = subprocess.run(["sh", "-c", f"ulimit -s unlimited 2>/dev/null; exec '{EVAL_BIN}' '{case_file}'"],
-                           stdout=f, stderr=subprocess.PIPE, timeout=3600)
+        p = subprocess.run(["sh", "-c", f"ulimit -s unlimited 2>/dev/null; ulimit -v 10000000 2>/dev/null; exec '{EVAL_BIN}' '{case_file}'"],
+                           stdout=f, stderr=subprocess.PIPE, timeout=1200)
     return [l.rstrip("\n") for l in open(out_file)]
 
 
